@@ -904,12 +904,13 @@ func specialLongLag(res *Result, outcomes map[string]int, base string, seed int6
 //        also when the sender's statistics callback (status line, log) is slow
 func specialLateInfo(res *Result, outcomes map[string]int, base string, seed int64, mine func() bool) {
 	const chunk, total, have = 64, 60, 54
-	for _, torn := range []bool{false, true} {
+	for _, mode := range []string{"plain", "torn", "torn-slowhash"} {
+		torn, slowHash := mode != "plain", mode == "torn-slowhash"
 		for _, streams := range []int{1, 2} {
 			if !mine() {
 				continue
 			}
-			dir := filepath.Join(base, fmt.Sprintf("late_%v_%d", torn, streams))
+			dir := filepath.Join(base, fmt.Sprintf("late_%s_%d", mode, streams))
 			src := filepath.Join(dir, "src", "tree")
 			size := int64(total*chunk - 11)
 			if err := xfer.MakeTree(src, []xfer.FileSpec{{Rel: "f.bin", Size: size}}, seed+int64(streams)); err != nil {
@@ -951,11 +952,19 @@ func specialLateInfo(res *Result, outcomes map[string]int, base string, seed int
 					framed[int(b)]++
 					fmu.Unlock()
 				}
+				if slowHash && name == "recv.resume.hash" {
+					// a slow disk: hashing the highest recorded chunk takes longer than the 2 s the receiver allows itself;
+					// its report says "hash unknown"
+					time.Sleep(2300 * time.Millisecond)
+				}
 			}
 			cfg := xfer.Config{Transport: "vquic", Conns: 1, Streams: streams, ChunkSize: chunk, Resume: true, NoRootDir: true, Seed: seed,
 				CtlBackLag: 450 * time.Millisecond, DataWriteDelay: 5 * time.Millisecond, Watchdog: 10 * time.Second}
 			if torn {
 				cfg.ResumeStatsDelay = 300 * time.Millisecond
+			}
+			if slowHash {
+				cfg.CtlBackLag, cfg.DataWriteDelay, cfg.ResumeStatsDelay = 0, 70*time.Millisecond, 0
 			}
 			o, err := xfer.Run(cfg, src, out)
 			extraHook = nil
@@ -969,9 +978,9 @@ func specialLateInfo(res *Result, outcomes map[string]int, base string, seed int
 				}
 			}
 			fmu.Unlock()
-			replay := map[string]any{"scenario": "resume information arrives after the grace period", "chunks": total, "recorded_complete": have, "highest_recorded_chunk_torn": torn,
+			replay := map[string]any{"scenario": "resume information arrives after the grace period", "chunks": total, "recorded_complete": have, "highest_recorded_chunk_torn": torn, "receiver_hash_timed_out": slowHash,
 				"finished_chunks_sent_again": again, "cfg": cfg, "outcome": o}
-			label := fmt.Sprintf("late resume information (torn=%v)", torn)
+			label := fmt.Sprintf("late resume information (%s)", mode)
 			switch {
 			case err != nil:
 				res.AddDrift(map[string]any{"why": err.Error()})
